@@ -216,6 +216,64 @@ static void mode_ingrid() {
     }
 }
 
+// follow, damping/diffusion step with the deterministic tracking models (FPTrack 1 and 2): the energy of the particle moves like the
+// energy centroid of a small blob of charge sitting on it (damping pulls both towards zero energy; diffusion spreads the blob symmetrically)
+static void mode_followfp() {
+    for (long c = M.from; c < M.from + M.count; c++) {
+        Rng r(M.seed, c, 1505);
+        Spec s; s.kind = K_FP; s.n = (uint32_t)r.range(48, 128); s.nb = 1;
+        s.fptype = (c % 2) ? 3 : 1;                 // full / damping only
+        s.deriv = ((c / 2) % 2) ? 3 : 4;            // both derivative stencils
+        int fptrack = 1 + (int)((c / 4) % 2);       // approximation 1 / 2
+        if (r.chance(0.5)) s.shifty = r.uni(-3, 3);
+        const double d = s.pqsize / (s.n - 1);
+        s.e1 = std::min(r.logu(2e-3, 3e-2), 0.25 * d * d);
+        M.begin_case(c, "followfp " + s.descr() + " fptrack=" + std::to_string(fptrack));
+        vh::set_grid(s.n, 1);
+        auto fill = filling_for(1);
+        auto in = grid_for(s, fill), out = grid_for(s, fill);
+        FokkerPlanckMap fpm(in, out, s.n, s.n, (FokkerPlanckMap::FPType)s.fptype, (FokkerPlanckMap::FPTracking)fptrack, (timeaxis_t)s.e1,
+                            (FokkerPlanckMap::DerivationType)s.deriv, nullptr);
+        const size_t nn = (size_t)s.n * s.n;
+        float* din = in->getData();
+        const double zb = in->getAxis(1)->zerobin();
+        for (int k = 0; k < 8; k++) {
+            // away from the borders and at least a quarter of the grid from zero energy (where the damping shift is a sizeable fraction of a cell)
+            double px = r.uni(12, s.n - 13), py = (k % 2) ? r.uni(10, std::max(10.5, zb - s.n / 4.0)) : r.uni(std::min(s.n - 11.5, zb + s.n / 4.0), s.n - 11);
+            const double sg = 2.5;
+            std::fill(din, din + nn, 0.0f);
+            for (int x = (int)px - 9; x <= (int)px + 10; x++) for (int y = (int)py - 9; y <= (int)py + 10; y++)
+                din[(size_t)x * s.n + y] = (float)std::exp(-0.5 * ((x - px) * (x - px) + (y - py) * (y - py)) / (sg * sg));
+            double s0 = 0, cy0 = 0, cx0 = 0;
+            for (uint32_t x = 0; x < s.n; x++) for (uint32_t y = 0; y < s.n; y++) { double v = din[(size_t)x * s.n + y]; s0 += v; cy0 += v * y; cx0 += v * x; }
+            cy0 /= s0; cx0 /= s0;
+            fpm.apply();
+            const float* dout = out->getData();
+            double s1 = 0, cy1 = 0;
+            for (uint32_t x = 0; x < s.n; x++) for (uint32_t y = 0; y < s.n; y++) { double v = dout[(size_t)x * s.n + y]; s1 += v; cy1 += v * y; }
+            cy1 /= s1;
+            PhaseSpace::Position p{(float)cx0, (float)cy0};
+            fpm.applyTo(p);
+            double dblob = cy1 - cy0, dpart = (double)p.y - cy0;
+            M.ev("particles_followed_through_fp_step");
+            M.ev("followfp.track" + std::to_string(fptrack) + ".deriv" + std::to_string(s.deriv));
+            // model 2 moves the particle with the local charge flux of its cell; with diffusion present that flux depends on where inside the blob the
+            // cell lies (the blob's centre does not move by diffusion, its flanks do): same direction and roughly the blob's shift there
+            const bool local_flux = (fptrack == 2 && s.fptype == 3);
+            // (model 2 weighs the stencil with the local data also without diffusion: 10-25 % off the centroid's shift on a blob of 2.5 cells rms
+            //  on the unchanged code; "not moved" is 100 % off, "moved the other way" 200 %)
+            double tol = local_flux ? 0.9 * std::fabs(dblob) + 0.05 : (fptrack == 2 ? 0.45 * std::fabs(dblob) + 0.015 : 0.2 * std::fabs(dblob) + 0.01);
+            if (!M.within("followfp_err_over_tol.track" + std::to_string(fptrack) + (local_flux ? ".with_diffusion" : ""), std::fabs(dpart - dblob) / tol, 1.0) || p.x != (float)cx0) {
+                vh::J dj; dj.s("spec", s.descr()).i("fptrack", fptrack).n("x0", cx0).n("y0", cy0).n("zero_energy_bin", zb).n("blob_moved_by", dblob).n("particle_moved_by", dpart).n("particle_x_after", p.x);
+                M.violation("C15:follow:fokker_planck:track" + std::to_string(fptrack), "tracked particle does not move with the charge around it in the damping/diffusion step", dj.str());
+                break;
+            }
+        }
+        M.sig(vh::hmix(vh::hmix(77 + fptrack, s.n * 8 + s.deriv), (uint64_t)(int64_t)(s.e1 * 1e12) ^ (uint64_t)c));
+        { vh::J j; j.s("class", "followfp").s("spec", s.descr()).i("fptrack", fptrack); M.sample(j.str()); }
+    }
+}
+
 static void mode_ensemble() {
     for (long c = M.from; c < M.from + M.count; c++) {
         Rng r(M.seed, c, 1503);
@@ -278,7 +336,7 @@ static void mode_ensemble() {
 int main(int argc, char** argv) {
     M.parse(argc, argv);
     std::string mode = M.opt("--mode", "follow");
-    if (mode == "follow") mode_follow(); else if (mode == "followdyn") mode_followdyn(); else if (mode == "ingrid") mode_ingrid(); else mode_ensemble();
+    if (mode == "follow") mode_follow(); else if (mode == "followdyn") mode_followdyn(); else if (mode == "ingrid") mode_ingrid(); else if (mode == "followfp") mode_followfp(); else mode_ensemble();
     M.finish();
     return 0;
 }
